@@ -77,7 +77,8 @@ def run(ctx):
             classes['accept' if v['specok'] else 'refuse'] += 1
             classes['wellformed'] += 1 if v['wf'] else 0
             what = 'tokens %s -> message %s: UnmarshalPayload ok=%s %s' % (
-                [(t['lvl'], t['f'], t['wt'], t['v'], t['tr']) for t in o['toks']], o['msg'][:400], o['ok'], o['got'])
+                [(t['lvl'], t['f'], t['wt'], t['v'], t['tr'], x) for t, x in zip(o['toks'], o['vals'])], o['msg'][:400],
+                o['ok'], o['got'])
             if not v['okmatch']:
                 # (same keys as the vector mode: one defect, one key)
                 if v['specok']:
